@@ -4,12 +4,15 @@ sys.path.insert(0, os.path.dirname(os.path.abspath(__file__)))
 
 def main():
     pid = sys.argv[1]; tier = sys.argv[2] if len(sys.argv) > 2 else "quick"
-    import check_simple
+    import check_simple, check_mdd
     table = {
         "C17": lambda: check_simple.check_c17(tier),
         "C18": lambda: check_simple.check_c18(tier),
         "C10": lambda: check_simple.check_c10(tier),
+        "C11": lambda: check_simple.check_c11(tier),
     }
+    for d in ("C06", "C07", "C08", "C12", "C13", "C20"):
+        table[d] = (lambda d=d: check_mdd.check_diagram(d, tier))
     if pid not in table:
         print("unknown property " + pid); sys.exit(2)
     sys.exit(table[pid]())
